@@ -147,7 +147,11 @@ class ShardRun:
                 break
             if time.time() - t0 > timeout:
                 dl = logical_deadlock(p.pid)
-                status = "deadlock" if dl else "timeout"
+                ticks, _ = _cpu_ticks(p.pid)
+                cpu_s = (ticks or 0) / float(os.sysconf("SC_CLK_TCK"))
+                # CPU time, not wall-clock: a case that needs milliseconds and has burnt most of a generous budget in
+                # CPU is looping, whatever the machine load
+                status = "deadlock" if dl else ("cpu-loop" if cpu_s >= 0.7 * timeout else "timeout")
                 p.kill()
                 p.wait()
                 rc = None
@@ -222,12 +226,12 @@ class ShardRun:
             return
         # after a few confirmed witnesses of the same kind, further ones are recorded from the batch verdict
         # (keeps a check on a badly broken tree within minutes)
-        confirmed = [c for c in self.crashes if c.get("batch_how") == how and c.get("kind") in ("deadlock", "crash")]
-        if len(confirmed) >= 3:
-            kind = "deadlock" if how == "deadlock" else ("crash" if how == "exit" else None)
+        confirmed = [c for c in self.crashes if c.get("batch_how") == how and c.get("kind") in ("deadlock", "crash", "cpu-loop")]
+        if len(confirmed) >= (3 if how == "exit" else 1):
+            kind = "deadlock" if how == "deadlock" else ("crash" if how == "exit" else ("cpu-loop" if confirmed[0].get("kind") == "cpu-loop" else None))
             if kind:
                 self.crashes.append(dict(idx=idx, desc=desc, batch_how=how, batch_rc=rc, batch_stderr=stderr[-6000:], kind=kind,
-                                         key=confirmed[0]["key"] if kind == "deadlock" else (classify_stderr(stderr) or _sig(rc) or "exit%s" % rc),
+                                         key=confirmed[0]["key"] if kind in ("deadlock", "cpu-loop") else (classify_stderr(stderr) or _sig(rc) or "exit%s" % rc),
                                          alone_status="not re-run (3 earlier witnesses confirmed alone)"))
                 return
         # confirm alone in a fresh process
@@ -251,6 +255,9 @@ class ShardRun:
         if alone["status"] == "deadlock" or (alone["status"] == "timeout" and how == "deadlock"):
             rec["kind"] = "deadlock"
             rec["key"] = "deadlock"
+        elif alone["status"] == "cpu-loop":
+            rec["kind"] = "cpu-loop"
+            rec["key"] = "endless-loop-consuming-cpu"
         elif alone["status"] == "timeout":
             rec["kind"] = "inconclusive"
             self.inconclusive.append(rec)
